@@ -317,6 +317,14 @@ func TestVerifC11Burst(t *testing.T) {
 				}
 			}
 		}
+		if !alive {
+			// the pipeline is stalled (reported above): its goroutines, the stats printer and the sweeper may be
+			// parked behind the same lock for ever – do not wait for any of them
+			cancel()
+			rec.Note("run stopped after the ingest pipeline stalled in phase " + wdesc)
+			rec.Count("evaluations", producers*rounds*burst)
+			return
+		}
 		sampleKeys()
 		cancel()
 		select {
@@ -326,7 +334,16 @@ func TestVerifC11Burst(t *testing.T) {
 				map[string]interface{}{"phase": wdesc, "goroutines_in_ingest": len(kit.InFunc(kit.Stacks(), "lib.(*RegistrationManager).startIngestThread"))})
 		}
 		close(stop)
-		side.Wait()
+		sideDone := make(chan struct{})
+		go func() { side.Wait(); close(sideDone) }()
+		select {
+		case <-sideDone:
+		case <-time.After(60 * time.Second):
+			blocked, _, state, stack := kit.C11LoopBlocked("TestVerifC11Burst.func", "")
+			rec.Violation("hang:station-housekeeping:parked", "the statistics printer / expiry sweep / lookups running next to the pipeline did not come back within 60 s ("+wdesc+")",
+				map[string]interface{}{"phase": wdesc, "stably_parked": blocked, "state": state, "stack": stack})
+			return
+		}
 		rec.Count("evaluations", producers*rounds*burst)
 		rec.Distinct("nontrivial", wdesc, "valid-distinct-libver")
 		rec.Distinct("nontrivial", wdesc, "malformed-mixed-in")
